@@ -104,6 +104,12 @@ type transCfg struct {
 	// retField: the function returns &T{...}; the definition yields the value
 	// given to this field of the literal.
 	retField string
+	// errLits: struct types of this package that implement error; &T{...} is
+	// the error value GoErr "T" "" (its fields are not modelled).
+	// libAlias: a package-level variable that names a modelled library value
+	// ("endian.Uint64" -> "encoding/binary.LittleEndian.Uint64").
+	errLits  map[string]bool
+	libAlias map[string]string
 }
 
 // ---------------------------------------------------------------- types
@@ -174,6 +180,8 @@ func coqType(t string) string {
 		return "Z"
 	case "set":
 		return "list (list N)"
+	case "buffer":
+		return "list N"
 	case "[]rune":
 		return "list Z"
 	case "goerr":
@@ -837,12 +845,27 @@ func (t *tr) expr(e ast.Expr) (string, string) {
 		if x.Name == "nil" {
 			return "None", tNil
 		}
+		if t.isPkgErrVar(x.Name) {
+			return fmt.Sprintf("(Some (GoErr \"var\" %s))", coqStr(x.Name)), tErr
+		}
 		t.fail(e, "unknown identifier")
 		return "GoUnknown", "?"
 	case *ast.BasicLit:
 		t.fail(e, "literal")
 		return "GoUnknown", "?"
 	case *ast.UnaryExpr:
+		if x.Op == token.AND {
+			if cl, ok := x.X.(*ast.CompositeLit); ok && t.cfg.errLits[t.p.src(cl.Type)] {
+				for _, el := range cl.Elts {
+					if kv, ok := el.(*ast.KeyValueExpr); ok {
+						t.expr(kv.Value)
+					} else {
+						t.expr(el)
+					}
+				}
+				return fmt.Sprintf("(Some (GoErr %s \"\"))", coqStr(t.p.src(cl.Type))), tErr
+			}
+		}
 		a, ty := t.expr(x.X)
 		switch x.Op {
 		case token.NOT:
@@ -1187,6 +1210,18 @@ func (t *tr) call(c *ast.CallExpr) (string, string) {
 		t.g.useExtern(ex)
 		return "(" + ex.name + t.args(c, ex.args) + ")", tupleT(ex.res)
 	}
+	if key, ok := t.cfg.libAlias[fsrc]; ok {
+		if lf, ok := libChains[key]; ok {
+			return t.libCall(c, lf, "")
+		}
+	}
+	if sel, ok := c.Fun.(*ast.SelectorExpr); ok && sel.Sel.Name == "Bytes" && len(c.Args) == 0 {
+		if id, ok := sel.X.(*ast.Ident); ok {
+			if v := t.lookup(id.Name); v != nil && v.typ == "buffer" {
+				return v.coq, tBytes
+			}
+		}
+	}
 	if key, ok := t.cfg.calls[fsrc]; ok {
 		if fi, _ := t.calleeOf(c); fi != nil && needsBind(fi) {
 			t.fail(c, "a call that returns state is only translated as a statement, an assignment or a return")
@@ -1222,6 +1257,15 @@ func (t *tr) call(c *ast.CallExpr) (string, string) {
 			return "GoUnknown", "?"
 		}
 		switch f.Name {
+		case "make":
+			if len(c.Args) == 2 && t.p.goType(c.Args[0]) == tBytes {
+				n, tn := t.expr(c.Args[1])
+				if !isIntT(tn) {
+					t.fail(c, "make length")
+				}
+				t.guard("(go_make_ok " + n + ")")
+				return "(go_make_bytes " + n + ")", tBytes
+			}
 		case "append":
 			if len(c.Args) == 2 {
 				a, ta := t.expr(c.Args[0])
@@ -1554,7 +1598,7 @@ func (t *tr) stmts(ss []ast.Stmt, k kont) string {
 		return restHere()
 	case *ast.ReturnStmt:
 		if len(x.Results) == 1 {
-			if c, ok := x.Results[0].(*ast.CallExpr); ok {
+			if c, ok := unwrapConv(x.Results[0]).(*ast.CallExpr); ok {
 				if fi, recvSrc := t.calleeOf(c); fi != nil && needsBind(fi) {
 					return t.returnCall(x, c, fi, recvSrc)
 				}
@@ -1620,6 +1664,19 @@ func (t *tr) stmts(ss []ast.Stmt, k kont) string {
 			for i, n := range vs.Names {
 				ty := t.p.goType(vs.Type)
 				var val string
+				if at, ok := vs.Type.(*ast.ArrayType); ok && at.Len != nil && len(vs.Values) == 0 {
+					// var buf [8]byte: a zeroed byte array, handled as a slice of that length
+					if k := t.constOf(at.Len); k != nil && normT(t.p.src(at.Elt)) == "uint8" {
+						c := t.declare(n.Name, tBytes)
+						pre += "let " + c + " := (go_make_bytes " + k.v.ExactString() + ") in\n"
+						continue
+					}
+				}
+				if id, ok := vs.Type.(*ast.SelectorExpr); ok && len(vs.Values) == 0 && t.p.src(id) == "bytes.Buffer" {
+					c := t.declare(n.Name, "buffer")
+					pre += "let " + c + " := [] in\n"
+					continue
+				}
 				if i < len(vs.Values) {
 					if ty != "" {
 						val = t.exprAs(vs.Values[i], ty)
